@@ -79,7 +79,12 @@ type Frame struct {
 	Parent *Frame
 	Call   ssa.CallInstruction // call site in Parent that created this frame (nil for entries and closures)
 	MC     *ssa.MakeClosure    // for closure frames: creation site in Parent
-	Depth  int
+	// Via / ViaSite: for a closure entered where it is passed as an argument
+	// (k.IterateX(ctx, handler)): the frame and call instruction of that use. Free
+	// variables bind through Parent (the creating frame); branch facts follow Via.
+	Via     *Frame
+	ViaSite ssa.Instruction
+	Depth   int
 }
 
 func (fr *Frame) String() string {
